@@ -14,7 +14,8 @@ EXPLANATION = (
     "the offset strictly increases below len(data)); the scope's call graph is acyclic; #![forbid(unsafe_code)] holds. "
     "Path rules: handle_read truncates the receive buffer (created with MAX_MSG_ABSOLUTE bytes) to the size recv returned "
     "before decoding; in the record loop the cursor equals RDATA start + RDLENGTH at every back edge and RDLENGTH is "
-    "checked against the datagram before any RDATA read.")
+    "checked against the datagram before any RDATA read."
+    " Memory: every explicit reservation in that scope (with_capacity / reserve / vec![x; n] / resize / repeat) asks for at most 4*len(a sequence already held)+64 elements or a constant <= 9000 — never for a count merely read from the header.")
 UNDECIDED = ["time and memory *linear* in the datagram size (the ranking gives a quadratic bound only)",
              "the bound on the decoded name's length", "that decoded values equal the bytes (round trip: C02)"]
 ASSUMPTIONS = ["allocation failure is out of scope", "std functions behave as documented (library model table in mdnsverif/libmodel.py)",
@@ -47,6 +48,10 @@ def clause_abc(ctx, P):
     ctx.ob("C01a.engine-converged", "fixpoint reached in every function", not A.nonconverged, "", "non-converged: %s" % sorted(A.nonconverged))
     n = e3.emit_sites(ctx, P, A, "C01a.F1.panic-site", sc | {hr.name}, classes=("A", "B"), justify=JUSTIFIED)
     ctx.floor("C01a.F1", n.get("A", 0), FLOOR_SITES_A, "class-A panic sites (bounds/index/unwrap/panic) in the decoder scope")
+    # memory: every explicit reservation (with_capacity / reserve / vec![x; n] / resize / repeat) asks for a number of
+    # elements bounded by data already held, not by a count read from the datagram
+    nm_ = e3.emit_sites(ctx, P, A, "C01c.F1.allocation-bounded", sc | {hr.name}, classes=("M",))
+    ctx.floor("C01c.F1", nm_.get("M", 0), 2, "explicit reservations in the decoder scope (hex dump buffer, receive buffer)")
     # completeness yardstick: every syntactic panic construct of a visited block is a recorded site
     missing = []
     total = 0
